@@ -5,7 +5,7 @@ usage: confirm_seed.py <Cnn> <A|B> [--miri]   (worktree /tmp/wt/<Cnn>, files out
 import json, os, shutil, subprocess, sys
 prop, k = sys.argv[1], sys.argv[2]
 miri = "--miri" in sys.argv
-wt = "/tmp/wt/%s" % prop
+wt = os.environ.get("SEED_WT_ROOT", "/tmp/wt") + "/%s" % prop
 env = dict(os.environ, CARGO_NET_OFFLINE="true")
 
 
@@ -17,10 +17,10 @@ def run(cmd, **kw):
 def demo_cmd():
     if miri:
         return ["cargo", "+nightly", "miri", "test", "--offline", "--test", "demo%s" % k]
-    return ["cargo", "test", "--offline", "--test", "demo%s" % k]
+    return ["cargo", "test", "--offline", "--test", "demo%s" % k] + (["--features", os.environ["SEED_FEATURES"]] if os.environ.get("SEED_FEATURES") else [])
 
 
-res = dict(property=prop, variant=k, miri=miri)
+res = dict(property=prop, variant=k, miri=miri, features=os.environ.get("SEED_FEATURES", "default"))
 run(["git", "checkout", "--", "src"])
 shutil.rmtree(os.path.join(wt, "tests"), ignore_errors=True)
 rc, out = run(["git", "apply", "out/mut%s.diff" % k])
